@@ -140,6 +140,12 @@ fn gen_shape(rng: &mut Rng, liq: bool) -> (Vec<SIx>, usize) {
     if rng.chance(1, 8) {
         let p = rng.below(v.len() as u64 + 1) as usize;
         v.insert(p, SIx { prog: 1, disc: *rng.pick(&[0i64, 2]), acct0: rng.below(3) as i64, acct1: 99 });
+        // ... now and then with an instruction WITHOUT a discriminator (the ATA program's create carries 0-1 bytes of data, a
+        // compute-budget or aggregator call can be short too) right in front of the later of the two starts
+        if rng.chance(1, 3) {
+            let later = v.iter().rposition(|x| x.prog == 1 && (x.disc == 0 || x.disc == 2)).unwrap();
+            v.insert(later, SIx { prog: *rng.pick(&[6u64, 6, 0, 4, 5]), disc: -1, acct0: 9, acct1: 99 });
+        }
     }
     let cur = match rng.below(6) {
         0 => rng.below(v.len() as u64) as usize,
@@ -285,6 +291,9 @@ pub fn monitor(rng: &mut Rng, n: usize, rep: &mut crate::mon::Report) {
             }
             if !why.is_empty() {
                 rep.fail(format!("C10 validate_instructions ACCEPTED a transaction that is not a proper bracket ({}): {}", why.join("; "), lhs));
+                // the same acceptance seen from the authority side: control over an account is taken (and, with a second start,
+                // kept past the transaction) outside the one bracket that the rule allows
+                rep.fail(format!("C08 a receivership is started by a transaction that is not a proper bracket ({}), so a non-owner acts on the account outside an active, properly closed receivership: {}", why.join("; "), lhs));
             }
         } else {
             let (cur, stack, end_idx, key) = (toks[0] as usize, toks[1], toks[2] as usize, toks[3]);
